@@ -92,7 +92,9 @@ CHECKS = {
     "C04": dict(
         engine="tlc-aligncore",
         technique="TLC model checking of AlignCore.tla (invariant C04) + TLC batch trace validation of real "
-                  "Aligner.align rows: offsets, scores and confidence recomputed from raw maps, peak and parameters",
+                  "Aligner.align rows: offsets, scores and confidence recomputed from raw maps, peak and parameters; "
+                  "rows returned by Program.run() against the Confidence column (Trace_RowScore); option -> component "
+                  "wiring (Wiring.tla / Trace_Wiring)",
         text="Same exploration as C01 at candidate level; TLC recomputes every pair's offset from the raw maps and the "
              "segment's seed peak, every position score from the parameters the harness passed (6-8 vectors), the "
              "confidence as the exact sum, and checks that every label inside a segment's span is accounted for and "
@@ -115,7 +117,8 @@ CHECKS = {
     "C16": dict(
         engine="tlc-vectorise",
         technique="TLC model checking of Vectorise.tla + TLC batch trace validation of the real vectorisePositions, "
-                  "blur, toRelativeGenomicPositions and PeaksSelector.selectPeaks",
+                  "blur, toRelativeGenomicPositions, PeaksSelector.selectPeaks, OpticalMap.getSequence (composed entry) and "
+                  "CorrelationResult.createPeaks (per-correlation cut)",
         text="TLC exhausts the sliding-window state machine (negative starts, ends before the last label, end=0), "
              "blur (all vectors up to length 7, radii 0..3), bin centres (resolutions 1..12) and top-N selection "
              "with ties on small cases against the C16 clauses; the same cases and random large ones go through the "
@@ -130,7 +133,9 @@ CHECKS = {
         text="Every XMAP file of every mode (incl. zero- and one-record files) is read back with the project's "
              "reader wired as Program wires it; TLC compares each alignment with its record (ids, orientation, "
              "HitEnum, pairs, truncated coordinates and lengths, confidence, pair coordinates from the maps); the "
-             "harness checks count and order.",
+             "harness checks count and order. In addition the whole record space of MC_Xmap (every matching on 4x4 "
+             "labels, both strands, single-pair records) is turned into real rows, written by the real writer and "
+             "read back (spec -> code).",
         design_ref="DESIGN.md section 4 (C18), section 10",
         note="Record-level model: MC_Xmap.",
     ),
@@ -261,7 +266,10 @@ CHECKS = {
         text="TLC exhausts sorted lists of <=4 calls on two chromosomes against the conservation clauses; the same "
              "lists (scaled to the real blur) and random ones go through the real cluster_indels and write_indel_file "
              "(file parsed independently); synthetic alignments with one break point go through both finders and TLC "
-             "checks Length and type of every emitted call.",
+             "checks Length and type of every emitted call (one trace line per finder invocation: calls must stem from "
+             "the alignment fed). sv/molecule_indels.run is also driven end to end on the joined / first / second pass "
+             "files the real COMA writes: every un-merged call must carry the coordinates of two consecutive aligned "
+             "pairs of the joined record (this found D12, fixed in /repo).",
         design_ref="DESIGN.md section 4 (C20), section 10",
         note="The averaged Length of merged clusters is not part of the property.",
     ),
